@@ -88,16 +88,19 @@ func (ucr *UnsignedChunkReader) Read(p []byte) (int, error) {
 			break
 		}
 		rdr := io.TeeReader(ucr.reader, ucr.hasher)
-		payload := make([]byte, chunkSize)
-		// Read and cache the payload
-		_, err = io.ReadFull(rdr, payload)
+		// Read and cache the payload. The chunk size is whatever the (not
+		// yet authenticated) client announced: buffer what actually
+		// arrives instead of allocating the announced size up front
+		var buf bytes.Buffer
+		_, err = io.CopyN(&buf, rdr, chunkSize)
 		if err != nil {
 			if err == io.EOF {
-				// a stream that ends where chunk data is expected is truncated
+				// a stream that ends inside the chunk data is truncated
 				return 0, io.ErrUnexpectedEOF
 			}
 			return 0, err
 		}
+		payload := buf.Bytes()
 
 		// Skip the trailing "\r\n"
 		if err := ucr.readAndSkip('\r', '\n'); err != nil {
